@@ -1,8 +1,20 @@
 (** Evaluation helpers for the C15 correspondence runs (no proofs, not part of any
     theorem): scripts with clean reopen, canonical form of system-call traces, and
     [open] on an image given by the bytes of its two root slots. *)
+From Coq Require Import String Ascii.
 From Aranya Require Import base.Tactics base.Harness gen.GenCrash model.Crash.
 Open Scope Z_scope.
+
+(** Byte strings are written as hexadecimal string literals in the generated cases files
+    (list literals of thousands of numerals are slow to parse). *)
+Definition hexval (c : ascii) : N :=
+  let n := N_of_ascii c in
+  if (n <? 58)%N then (n - 48)%N else if (n <? 71)%N then (n - 55)%N else (n - 87)%N.
+Fixpoint hexs (s : string) : list N :=
+  match s with
+  | String a (String b r) => (16 * hexval a + hexval b)%N :: hexs r
+  | _ => []
+  end.
 
 (** A script: appends, commits and "drop the writer and open the file again"
     (a clean reopen reads the page-cache view of the file). *)
